@@ -8,131 +8,14 @@ generated text changes and the corresponding theorem is re-checked against it; a
 value somewhere makes the theorem false, hence the proof fails: a broken obligation of every property whose model
 uses the function. The proofs are `unfold` + case analysis (`grind`, `omega`), not `rfl` on syntax, so that
 re-arrangements of the C++ that the translator understands and that do not change the value keep passing.
+
+One file per function under `Proofs/CScalarTies/` (so that a broken tie breaks only the properties whose model uses that
+function, see `harness/foundation/cscalar.py`); this file imports them all.
 -/
-import Mahotas.Generated.CScalar
-import Mahotas.Model.Border
-import Mahotas.Model.C04
-import Mahotas.Proofs.DType
-namespace Mahotas
-open Generated.C
+import Mahotas.Proofs.CScalarTies.FixOffset
+import Mahotas.Proofs.CScalarTies.ErodeSub
+import Mahotas.Proofs.CScalarTies.DilateAdd
+import Mahotas.Proofs.CScalarTies.TAbs
+import Mahotas.Proofs.CScalarTies.SubmElem
+import Mahotas.Proofs.CScalarTies.MarginOf
 
-/-! ### `_filters.h`: `fix_offset` -/
-
-/-- **`fix_offset` (C++ text) = `fixOffset` (model)** for every mode, coordinate and length; the generated function
-    takes the numeric value of the `ExtendMode` enumerator (`Mode.code`, itself checked against the enum by
-    `Proofs/Modes.lean`), and `border_flag_value` is `none`. -/
-theorem cscalar_fix_offset_eq_model (m : Mode) (cc len : Int) :
-    fix_offset (m.code : Int) cc len = fixOffset m cc len := by
-  unfold fix_offset fixOffset
-  cases m <;> simp only [Mode.code] <;> grind
-
-example : fix_offset 3 (-4) 3 = some 0 ∧ fix_offset 2 7 3 = some 1 ∧ fix_offset 1 (-1) 5 = some 4
-    ∧ fix_offset 0 9 4 = some 3 ∧ fix_offset 4 (-1) 4 = none ∧ fix_offset 5 2 4 = some 2 := by decide
-
-/-! ### `_morph.cpp`: saturating helpers -/
-
-/-- **`erode_sub<T>` and `erode_sub<bool>` (C++ text) = `erodeSub`**: the model dispatches on `dt.isBool` the way the
-    compiler selects the `bool` specialisation. All arguments, every dtype. -/
-theorem cscalar_erode_sub_eq_model (dt : DT) (a b : Int) :
-    erodeSub dt a b = if dt.isBool then erode_sub_bool a b else erode_sub dt a b := by
-  unfold erodeSub erode_sub erode_sub_bool
-  grind
-
-example : erode_sub (dtI 8) (-100) 100 = -128 ∧ erode_sub (dtU 8) 3 5 = 0 ∧ erode_sub (dtI 8) 5 (-128) = 127
-    ∧ erode_sub_bool 1 1 = 1 ∧ erode_sub_bool 1 0 = 0 := by decide
-
-/-- **`dilate_add<T>` and `dilate_add<bool>` (C++ text) = `dilateAdd`** for heights `b ≥ 0` or `b` the dtype minimum
-    ("absent"): the standing assumption of C01/C02/C07 on structuring elements (`ASSUMPTIONS` of `harness/props/c01.py`).
-    The C++ tests `b >= 0 && r < a`; the model (written for such heights) tests `r < a` only — for a negative height
-    that is not the minimum the two differ, which is outside the domain the properties speak about. -/
-theorem cscalar_dilate_add_eq_model (dt : DT) (a b : Int) (hb : 0 ≤ b ∨ b = dt.lo) :
-    dilateAdd dt a b = if dt.isBool then dilate_add_bool a b else dilate_add dt a b := by
-  unfold dilateAdd dilate_add dilate_add_bool
-  grind
-
-example : dilate_add (dtI 8) 100 100 = 127 ∧ dilate_add (dtI 8) (-5) 1 = -4 ∧ dilate_add (dtU 8) 200 100 = 255
-    ∧ dilate_add (dtI 8) (-128) 3 = -128 ∧ dilate_add_bool 1 1 = 1 := by decide
-
-/-- **`t_abs` (C++ text, at the index types) = `Int.natAbs`** (what `C04.chebStep` and the model of `distance` use). -/
-theorem cscalar_t_abs_eq_model (x : Int) : t_abs x = (x.natAbs : Int) := by
-  unfold t_abs; split <;> omega
-
-example : t_abs (-3) = 3 ∧ t_abs 4 = 4 := by decide
-
-/-- **element body of `subm<T>` (C++ text) = `submElem`** for values of the dtype (`a`, `b` in range — they are read
-    from arrays of that dtype). In the unsigned branch the C++ stores `*ita -= *itb` (a store: `dt.wrap`), the model
-    writes the exact `a - b`; they agree because `b ≤ a` there. The signed branch agrees for all integers. -/
-theorem cscalar_subm_elem_eq_model (dt : DT) (wf : dt.WF) (a b : Int) (ha : dt.InRange a) (hb : dt.InRange b) :
-    submElem dt a b = subm_elem dt a b := by
-  unfold submElem subm_elem
-  by_cases hs : dt.signed = true
-  · simp only [hs]; grind
-  · have hl : dt.lo = 0 := by
-      rcases wf.lo_cases with h | h
-      · exact h
-      · exfalso; apply hs; rw [DT.signed_iff]; have := wf.hi_pos; omega
-    unfold DT.InRange at ha hb
-    simp only [hs]
-    by_cases hba : b > a
-    · simp [hba]
-    · simp [hba]
-      rw [DT.wrap_in dt (a - b) (by omega)]
-
-example : subm_elem (dtI 8) (-100) 100 = -128 ∧ subm_elem (dtU 8) 3 5 = 0 ∧ subm_elem (dtU 8) 9 5 = 4
-    ∧ subm_elem (dtI 8) 100 (-100) = 127 := by decide
-
-/-! ### `_morph.cpp`: `margin_of` (a loop over the axes) -/
-
-/-- a `for (d = 0; d != n; ++d)` loop that reads two arrays at `[d]` only is a fold over the zipped lists -/
-theorem foldl_range_getD2 {σ : Type} (f : σ → Int → Int → σ) :
-    ∀ (xs ys : List Int) (s : σ), ys.length = xs.length →
-      (List.range xs.length).foldl (fun s (k : Nat) => f s (xs.getD k 0) (ys.getD k 0)) s
-        = (List.zip xs ys).foldl (fun s xy => f s xy.1 xy.2) s
-  | [], ys, s, _ => by simp
-  | x :: xs, [], s, h => by simp at h
-  | x :: xs, y :: ys, s, h => by
-      have ih := foldl_range_getD2 f xs ys (f s x y) (by simpa using h)
-      simp only [List.length_cons, List.range_succ_eq_map, List.foldl_cons, List.foldl_map, List.zip_cons_cons,
-        List.getD_cons_zero, List.getD_cons_succ]
-      exact ih
-
-theorem marginOf_zip : ∀ (ds : List Nat) (ps : List Int) (m : Int), ps.length = ds.length → m ≤ C04.idxMax →
-    (List.zip (ds.map Int.ofNat) ps).foldl (fun m xy => min (min m xy.2) (xy.1 - xy.2 - 1)) m = min m (C04.marginOf ds ps)
-  | [], [], m, _, hm => by simp [C04.marginOf]; omega
-  | [], _ :: _, m, h, _ => by simp at h
-  | _ :: _, [], m, h, _ => by simp at h
-  | d :: ds, p :: ps, m, h, hm => by
-      have ih := marginOf_zip ds ps (min (min m p) ((d : Int) - p - 1)) (by simpa using h) (by omega)
-      simp only [List.map_cons, List.zip_cons_cons, List.foldl_cons, C04.marginOf, C04.axisMargin]
-      simp only [Int.ofNat_eq_natCast]
-      rw [ih]; omega
-
-/-- the generated loop of `margin_of`, with the two `if (x < margin) margin = x;` updates read as `min` -/
-theorem margin_of_fold (dims pos : List Int) :
-    margin_of dims pos = (List.range dims.length).foldl
-      (fun m (k : Nat) => min (min m (pos.getD k 0)) (dims.getD k 0 - pos.getD k 0 - 1)) C04.idxMax := by
-  unfold margin_of
-  simp only [Int.toNat_natCast, C04.idxMax]
-  congr 1
-  funext m k
-  grind
-
-theorem marginOf_le : ∀ (shape : List Nat) (pos : List Int), C04.marginOf shape pos ≤ C04.idxMax
-  | [], _ => by simp [C04.marginOf]
-  | _ :: _, [] => by simp [C04.marginOf]
-  | d :: ds, p :: ps => by simp only [C04.marginOf]; have := marginOf_le ds ps; omega
-
-/-- **`margin_of` (C++ text) = `C04.marginOf`** for every shape and every position with as many coordinates as the
-    array has axes (`numpy::position` objects handed to `margin_of` are positions of `markers`: `nd_ = ndims()`). -/
-theorem cscalar_margin_of_eq_model (shape : List Nat) (pos : List Int) (h : pos.length = shape.length) :
-    margin_of (shape.map Int.ofNat) pos = C04.marginOf shape pos := by
-  rw [margin_of_fold]
-  have := foldl_range_getD2 (fun (m : Int) x y => min (min m y) (x - y - 1)) (shape.map Int.ofNat) pos C04.idxMax
-    (by simpa using h)
-  rw [this, marginOf_zip shape pos _ h (Int.le_refl _)]
-  have := marginOf_le shape pos
-  omega
-
-example : margin_of [5, 7] [1, 3] = 1 ∧ margin_of [5, 7] [2, 6] = 0 ∧ margin_of [] [] = 9223372036854775807 := by decide
-
-end Mahotas
